@@ -44,6 +44,20 @@ type vAdoptionScenario struct {
 const vNS = "ns"
 
 func vDrawRef(prefix string) vRef {
+	if verifrt.Bound("refUniverse", 0) == 1 {
+		// reduced identifier universes, so that two references fit into the path budget
+		r := vRef{
+			APIVersion: verifrt.StringFrom(prefix+".apiVersion", pkoAPIVersion, "apps/v1"),
+			Kind:       verifrt.StringFrom(prefix+".kind", "ObjectSet", "ClusterObjectSet", "ObjectSetPhase"),
+			Name:       verifrt.StringFrom(prefix+".name", "me", "prev1", "rp1"),
+			UID:        verifrt.StringFrom(prefix+".uid", "uid-me", "uid-prev1", "uid-rp1", "uid-other"),
+		}
+		r.HasCtrl = verifrt.Bool(prefix + ".hasController")
+		if r.HasCtrl {
+			r.Ctrl = verifrt.Bool(prefix + ".controller")
+		}
+		return r
+	}
 	r := vRef{
 		APIVersion: verifrt.StringFrom(prefix+".apiVersion", pkoAPIVersion, "package-operator.run/v1beta1", "apps/v1"),
 		Kind:       verifrt.StringFrom(prefix+".kind", "ObjectSet", "ClusterObjectSet", "ObjectSetPhase", "ClusterObjectSetPhase", "Deployment"),
@@ -231,6 +245,7 @@ type vPatchedMeta struct {
 	meIsController  bool
 	revisionMatches bool
 	owners          int
+	ownerUIDs       []string
 }
 
 // vInspectApply decodes the body of an apply patch and reports who controls the object in it.
@@ -245,6 +260,7 @@ func (s *vAdoptionScenario) vInspectApply(w vWrite) vPatchedMeta {
 	if s.strategyKind == vStrategyNative {
 		for _, or := range u.GetOwnerReferences() {
 			res.owners++
+			res.ownerUIDs = append(res.ownerUIDs, string(or.UID))
 			if or.Controller != nil && *or.Controller {
 				res.controllers++
 				if groupOf(or.APIVersion) == s.me.group() && or.Kind == s.me.Kind && or.Name == s.me.Name && string(or.UID) == s.me.UID {
